@@ -157,7 +157,8 @@ type itemPlan struct {
 	PayloadMode string `json:"payload"` // absent | requested | other | generic
 	PayloadHex  string `json:"payload_hex,omitempty"`
 	// IDFrom (batches): 0 = the item echoes the Unique Batch Item ID of the request item at its own position;
-	// k > 0 = it carries the ID of request item k-1 (duplicated or permuted IDs); -1 = it carries none
+	// k > 0 = it carries the ID of request item k-1 (duplicated or permuted IDs); -1 = it carries none;
+	// -2 / -3 / -4 = it carries an ID of the server's own making of 3 / 12 / 0 bytes (an ID is a byte string of any length)
 	IDFrom int `json:"id_from_request_item,omitempty"`
 }
 type respPlan struct {
@@ -225,6 +226,9 @@ func drawItemPlan(rt *rapid.T, op kmip.Operation, conformantBias bool) itemPlan 
 			rapid.SampledFrom([]string{"", "no such object", "permission denied: key 17", "m", "storage is 100% full", "key%2Fprod not found", "%s %d %v %!", "100%", "a\"b'c\\d", "line1\nline2\ttab", "nicht gefunden: Schlüssel ÄÖ€ 🔑"}),
 			rapid.StringOfN(rapid.RuneFrom([]rune("ab %svd!(){}[]\"'\\\n:;,.-_=+#é€")), 1, 24, -1),
 		).Draw(rt, "message")
+	}
+	if rapid.IntRange(0, 5).Draw(rt, "ownid") == 0 {
+		p.IDFrom = rapid.SampledFrom([]int{-2, -3, -4, -1}).Draw(rt, "idkind")
 	}
 	p.PayloadMode = rapid.SampledFrom([]string{"requested", "requested", "requested", "absent", "other", "generic"}).Draw(rt, "payloadmode")
 	switch p.PayloadMode {
@@ -299,7 +303,7 @@ func buildResponse(rp respPlan, req *ttlvref.Node) []byte {
 			reqID = find(reqItems[i], tUniqueBatchID)
 			if ip.IDFrom > 0 && ip.IDFrom-1 < len(reqItems) {
 				reqID = find(reqItems[ip.IDFrom-1], tUniqueBatchID)
-			} else if ip.IDFrom < 0 {
+			} else if ip.IDFrom == -1 {
 				reqID = nil
 			}
 		} else if len(reqItems) > 0 {
@@ -312,6 +316,14 @@ func buildResponse(rp respPlan, req *ttlvref.Node) []byte {
 			it.Kids = append(it.Kids, &ttlvref.Node{Tag: tOperation, Type: ttlvref.Enumeration, I: reqOp})
 		case "other", "unknown":
 			it.Kids = append(it.Kids, &ttlvref.Node{Tag: tOperation, Type: ttlvref.Enumeration, I: int64(ip.OtherOp)})
+		}
+		switch ip.IDFrom {
+		case -2:
+			reqID = &ttlvref.Node{Tag: tUniqueBatchID, Type: ttlvref.ByteString, B: []byte{0x01, 0x02, 0x03}}
+		case -3:
+			reqID = &ttlvref.Node{Tag: tUniqueBatchID, Type: ttlvref.ByteString, B: []byte("twelve bytes")}
+		case -4:
+			reqID = &ttlvref.Node{Tag: tUniqueBatchID, Type: ttlvref.ByteString, B: []byte{}}
 		}
 		if reqID != nil {
 			it.Kids = append(it.Kids, reqID.Clone())
@@ -633,7 +645,7 @@ func c12Run(c c12Case) (sig string, err error) {
 func TestC12Responses(t *testing.T) {
 	const name = "TestC12Responses"
 	rec := evid.New("C12", name, "for every fluent builder (26), Request, Batch+Unwrap, the discovery exchange of Dial and the crypto.Signer construction: a generated well-formed response message from a scripted in-memory server - "+
-		"header protocol version {the request's, 1.0, 1.1, 1.4, 2.0, 0.0}, header batch count in {n, n-1, n+1, n+5}, item count n-1..n+2, per item operation {requested, other implemented, unknown, absent}, status {4 named, unnamed}, reason {none, named, unnamed}, message, payload {absent, of the requested operation, of another operation, generic}, in batches Unique Batch Item IDs {echoed in place, of another request item (duplicated or permuted), absent}; "+
+		"header protocol version {the request's, 1.0, 1.1, 1.4, 2.0, 0.0}, header batch count in {n, n-1, n+1, n+5}, item count n-1..n+2, per item operation {requested, other implemented, unknown, absent}, status {4 named, unnamed}, reason {none, named, unnamed}, message, payload {absent, of the requested operation, of another operation, generic}, Unique Batch Item IDs {echoed in place, in batches of another request item (duplicated or permuted), absent, of the server's own making with 0 / 3 / 12 bytes}; "+
 		"oracle: returns; error or the requested operation's payload type; a failed item surfaces as an error carrying status, reason and message; non-trivial = the response deviates from the conformant one; distinct by case").Attach(t)
 	if rp := evid.LoadReplay(name); rp != nil {
 		var c c12Case
